@@ -180,24 +180,15 @@ func genValidVLA(c *RNG) rtp.VLA {
 	return v
 }
 
-// vlaEqual: equal as VLAs - the sizes and the frame rate of a layer are part of the value only under the
-// resolution flag (the struct documents them as valid only then)
+// vlaEqual: equal in every field.  A valid VLA without the resolution flag has no sizes and no frame rate (they are
+// not on the wire; valid_vla asks for zeros there), so what a decode leaves in those fields - zeros on a fresh
+// receiver - is part of "yields an equal VLA, also when the receiving value was used for an earlier decode": stale
+// sizes from an earlier decode are a difference (seeded changes C19-r2m1, C19-r6m1).
 func vlaEqual(a, b rtp.VLA) bool {
-	norm := func(v rtp.VLA) rtp.VLA {
-		out := v
-		out.ActiveSpatialLayer = nil
-		for _, l := range v.ActiveSpatialLayer {
-			if !v.HasResolutionAndFramerate {
-				l.Width, l.Height, l.Framerate = 0, 0, 0
-			}
-			if len(l.TargetBitrates) == 0 {
-				l.TargetBitrates = nil
-			}
-			out.ActiveSpatialLayer = append(out.ActiveSpatialLayer, l)
-		}
-		return out
+	if len(a.ActiveSpatialLayer) == 0 && len(b.ActiveSpatialLayer) == 0 {
+		a.ActiveSpatialLayer, b.ActiveSpatialLayer = nil, nil
 	}
-	return reflect.DeepEqual(norm(a), norm(b))
+	return reflect.DeepEqual(a, b)
 }
 
 func init() {
